@@ -47,6 +47,7 @@ type scheduler struct {
 	wg       sync.WaitGroup
 	visOps   int
 	maxG     int
+	race     *raceState
 }
 
 func newScheduler(p *Path) *scheduler {
@@ -187,6 +188,7 @@ func (fr *frame) spawn(instr *ssa.Go, fn value, args []value) {
 	}
 	g := &goroutine{id: len(s.gs), resume: make(chan struct{}, 1)}
 	s.gs = append(s.gs, g)
+	fr.raceFork(g.id)
 	root := &frame{i: fr.i, p: fr.p, g: g, fn: fr.fn, curInstr: instr}
 	g.top = root
 	s.wg.Add(1)
@@ -373,9 +375,11 @@ func (fr *frame) chanSend(c *gchan, v value) {
 	if c.closed {
 		panic(targetPanic{v: iface{fr.i.runtimeErrorString, "send on closed channel"}, site: fr.site()})
 	}
+	fr.raceRelease(c, "send")
 	if len(c.buf) < c.cap {
 		c.buf = append(c.buf, v)
 		fr.p.sched.visOps++
+		fr.raceAcquire(c, "recv")
 		return
 	}
 	it := &sendItem{val: v}
@@ -385,6 +389,7 @@ func (fr *frame) chanSend(c *gchan, v value) {
 	if !it.taken && c.closed {
 		panic(targetPanic{v: iface{fr.i.runtimeErrorString, "send on closed channel"}, site: fr.site()})
 	}
+	fr.raceAcquire(c, "recv")
 }
 
 func (fr *frame) chanRecv(instr *ssa.UnOp, x value) value {
@@ -396,7 +401,9 @@ func (fr *frame) chanRecv(instr *ssa.UnOp, x value) value {
 	c.recvWaiters++
 	fr.blockOn(c.canRecv, "chan receive")
 	c.recvWaiters--
+	fr.raceRelease(c, "recv")
 	v, ok := c.take()
+	fr.raceAcquire(c, "send")
 	fr.p.sched.visOps++
 	if !ok {
 		v = zero(instr.X.Type().Underlying().(*types.Chan).Elem())
@@ -415,6 +422,7 @@ func (fr *frame) chanClose(c *gchan) {
 	if c.closed {
 		panic(targetPanic{v: iface{fr.i.runtimeErrorString, "close of closed channel"}, site: fr.site()})
 	}
+	fr.raceRelease(c, "send")
 	c.closed = true
 	fr.p.sched.visOps++
 }
@@ -482,6 +490,13 @@ func (fr *frame) selectStmt(instr *ssa.Select) value {
 	}
 	c := cases[chosen]
 	fr.p.sched.visOps++
+	if c.send {
+		fr.raceRelease(c.c, "send")
+		fr.raceAcquire(c.c, "recv")
+	} else {
+		fr.raceRelease(c.c, "recv")
+		fr.raceAcquire(c.c, "send")
+	}
 	if c.send {
 		if c.c.closed {
 			panic(targetPanic{v: iface{fr.i.runtimeErrorString, "send on closed channel"}, site: fr.site()})
